@@ -105,6 +105,24 @@ theorem offset_is_little_endian (n : Nat) (h : n < 2^32) :
   simp [Spec.uintBytes, List.range]
   simp [List.range.loop]
 
+/-- with debug assertions the encoder refuses (panics on) every length that does not fit the offset word,
+    and agrees with the release encoder on all others -/
+theorem offset_debug_assert (n : Nat) :
+    encodeLengthDbg n = if n < 2^32 then .ok (encodeLength n) else .panic := by
+  unfold encodeLengthDbg MAX_LENGTH_VALUE
+  by_cases h : n < 2^32
+  · have : n ≤ 2^32 - 1 := by omega
+    simp [h, this]
+  · have : ¬ n ≤ 2^32 - 1 := by omega
+    simp [h, this]
+
+/-- without them the word silently wraps: the release encoder is NOT injective beyond 2^32 − 1
+    (this is why C01/C03/C04 carry the hypothesis `length < 2^32`) -/
+theorem offset_release_wraps (n : Nat) : encodeLength (n + 2^32) = encodeLength n := by
+  unfold encodeLength
+  have h : (n + 2 ^ 32) % 2 ^ 32 = n % 2 ^ 32 := Nat.add_mod_right n (2 ^ 32)
+  rw [h]
+
 /-! ### non-vacuity: a mixed container with an empty last item, a three-item list -/
 
 example : build [.fixed 1, .var, .fixed 2, .var] [7, 11,0,0,0, 1,2, 12,0,0,0, 0xAA] = .ok [[7], [0xAA], [1,2], []] := by
